@@ -6,6 +6,7 @@ mod dsp;
 mod blocks;
 mod common;
 mod formats;
+mod gengraph;
 mod graphs;
 mod mt;
 mod ring;
@@ -21,6 +22,7 @@ fn main() {
         "repeat-replay" => ring::cmd_repeat_replay(rest),
         "ax25-run" => ax25::cmd_run(rest),
         "dsp-kernels" => dsp::cmd_kernels(rest),
+        "gengraph-run" => gengraph::cmd_run(rest),
         "bench" => bench::cmd_bench(rest),
         "codec" => formats::cmd_codec(rest),
         "reasm" => formats::cmd_reasm(rest),
